@@ -140,8 +140,8 @@ func genHistory(r *Rng, seed uint64, tier string) *C15Spec {
 func init() {
 	register(&CheckDef{
 		ID: "C15", Level: "exploration",
-		Technique: "deterministic simulation of call histories: seeded sequences of API calls and caller-side field updates on long-lived recipes and word lists, each call on its own scripted tape; deep snapshots before/after and comparison with the same call on a fresh value in isolation; whole episode executed twice",
-		Rule:      "case = one API call inside a history; distinct by hash of (history prefix, call); non-trivial = the call is preceded by at least one other call or field update on the same pool",
+		Technique:   "deterministic simulation of call histories: seeded sequences of API calls and caller-side field updates on long-lived recipes and word lists, each call on its own scripted tape; deep snapshots before/after and comparison with the same call on a fresh value in isolation; whole episode executed twice",
+		Rule:        "case = one API call inside a history; distinct by hash of (history prefix, call); non-trivial = the call is preceded by at least one other call or field update on the same pool",
 		Assumptions: []string{"the package knobs MaxTrials/MaxFailRate count as part of the current configuration (the isolated reference call runs under the same knob values)", "stateful separator closures written by the caller are excluded (only pure ones are used)"},
 		Episodes:    map[string]int{"quick": 12000, "thorough": 1200000},
 		TwiceEvery:  3,
